@@ -106,6 +106,62 @@ theorem removeL_length_le (ks : String → Bool) : (l : GL) → (removeL ks l).l
       split <;> simp only [GL.length] <;> omega
 
 mutual
+/-- the remover only drops genes: what is left mentions genes of the old rule, none of them removed -/
+theorem genes_remove (ks : String → Bool) : (g : G) → ∀ g', remove ks g = some g' → ∀ x ∈ genes g', x ∈ genes g ∧ ks x = false
+  | .name s => by
+      intro g' h x hx
+      simp only [remove] at h
+      split at h
+      · cases h
+      · rename_i hk
+        cases h
+        simp only [genes, List.mem_singleton] at hx
+        subst hx
+        exact ⟨by simp [genes], by simpa using hk⟩
+  | .and cs => by
+      intro g' h x hx
+      have ih := genesL_remove ks cs
+      simp only [remove] at h
+      split at h
+      · cases h
+      · split at h
+        · cases h
+        · split at h
+          · rename_i g1 heq
+            cases h
+            exact ih x (by rw [heq]; simp [genesL, hx])
+          · cases h
+            exact ih x (by simpa [genes] using hx)
+  | .or cs => by
+      intro g' h x hx
+      have ih := genesL_remove ks cs
+      simp only [remove] at h
+      split at h
+      · cases h
+      · rename_i g1 heq
+        cases h
+        exact ih x (by rw [heq]; simp [genesL, hx])
+      · cases h
+        exact ih x (by simpa [genes] using hx)
+theorem genesL_remove (ks : String → Bool) : (l : GL) → ∀ x ∈ genesL (removeL ks l), x ∈ genesL l ∧ ks x = false
+  | .nil => by intro x hx; simp [removeL, genesL] at hx
+  | .cons g t => by
+      intro x hx
+      have iht := genesL_remove ks t
+      simp only [removeL] at hx
+      split at hx
+      · obtain ⟨a, b⟩ := iht x hx
+        exact ⟨by simp [genesL, a], b⟩
+      · rename_i g' hg
+        simp only [genesL, List.mem_append] at hx
+        rcases hx with hx | hx
+        · obtain ⟨a, b⟩ := genes_remove ks g g' hg x hx
+          exact ⟨by simp [genesL, a], b⟩
+        · obtain ⟨a, b⟩ := iht x hx
+          exact ⟨by simp [genesL, a], b⟩
+end
+
+mutual
 theorem remove_spec (ks ko : String → Bool) : (g : G) → G.wf g = true →
     (∀ g', remove ks g = some g' → eval ko g' = eval (both ko ks) g) ∧
     (remove ks g = none → eval (both ko ks) g = false)
